@@ -249,6 +249,14 @@ func (g *gen) genComponent(prefix, manifestName string, withComponents bool) (fi
 		ann := map[string]any{annPhase: in.Phase}
 		finalAnn := map[string]any{}
 		lbls := map[string]any{}
+		// manifests copied from another package may still carry its package labels: rendering has to replace them
+		// (decided by the object index, not by a PRNG draw, so that the other generated content stays as it was)
+		switch i % 5 {
+		case 2:
+			lbls[lblPkg] = "some-other-package"
+		case 4:
+			lbls[lblInst] = "some-other-instance"
+		}
 		subst := map[string]string{}
 		ph := func(tv tmplVal) any {
 			if !templated {
